@@ -15,6 +15,32 @@ let hexdigit (((a, b), c), d) =
 let nibble_of_char ch =
   let v = int_of_string ("0x" ^ String.make 1 ch) in
   ((((v land 8) <> 0, (v land 4) <> 0), (v land 2) <> 0), (v land 1) <> 0)
+(* shape-carrying operands and results (degenerate shapes cannot be told apart in the comma protocol):
+   operand  v:<bits> (vector)  |  m:<r>x<c>:<flat bits, row major> (matrix);  "-" = no bits
+   result   s:<bit>  |  v:<len>:<bits>  |  m:<r>x<c>:<flat>  with c = "*" when there is no row to measure
+   strings  s:<pauli>  |  l:<count>:<p1,p2,...>   ("-" = the empty string) *)
+type opnd = V of bool list | M of int * int * bool list list
+let rec take n l = if n = 0 then [] else (match l with [] -> failwith "short" | x :: r -> x :: take (n - 1) r)
+let rec drop n l = if n = 0 then l else (match l with [] -> failwith "short" | _ :: r -> drop (n - 1) r)
+let rec chunk r c l = if r = 0 then (if l = [] then [] else failwith "long") else take c l :: chunk (r - 1) c (drop c l)
+let parse_opnd s = match String.split_on_char ':' s with
+  | ["v"; b] -> V (bits_of_string b)
+  | ["m"; sh; b] -> (match String.split_on_char 'x' sh with
+      | [r; c] -> let r = int_of_string r and c = int_of_string c in M (r, c, chunk r c (bits_of_string b))
+      | _ -> failwith "badshape")
+  | _ -> failwith "badoperand"
+let show_vec l = Printf.sprintf "v:%d:%s" (List.length l) (string_of_bits l)
+let show_mat rows =
+  let c = match rows with [] -> "*" | x :: _ -> string_of_int (List.length x) in
+  List.iter (fun x -> if List.length x <> List.length (List.hd rows) then failwith "ragged") rows;
+  Printf.sprintf "m:%dx%s:%s" (List.length rows) c (string_of_bits (List.concat rows))
+let parse_strs s = match String.split_on_char ':' s with
+  | ["s"; p] -> `S (pstr_of_string p)
+  | ["l"; n; ps] -> let n = int_of_string n in
+      let l = if n = 0 then [] else List.map pstr_of_string (String.split_on_char ',' ps) in
+      if List.length l <> n then failwith "badcount" else `L l
+  | _ -> failwith "badstrings"
+let show_strs l = Printf.sprintf "l:%d:%s" (List.length l) (if l = [] then "-" else String.concat "," (List.map string_of_pstr l))
 let dispatch = function
   | ["to_bsf"; s] -> string_of_bits (to_bsf (pstr_of_string s))
   | ["of_bsf"; b] -> string_of_pstr (of_bsf (bits_of_string b))
@@ -40,5 +66,26 @@ let dispatch = function
   | ["anticommutes"; s; t] -> bit (anticommutes (pstr_of_string s) (pstr_of_string t))
   | ["pmul"; s; t] -> string_of_pstr (pmul (pstr_of_string s) (pstr_of_string t))
   | ["xorv"; a; b] -> string_of_bits (xorv (bits_of_string a) (bits_of_string b))
+  | ["xbsp"; a; b] -> (match parse_opnd a, parse_opnd b with   (* numpy dot's dispatch on the number of dimensions *)
+      | V a, V b -> "s:" ^ bit (bsp a b)
+      | V a, M (_, k, rows) -> show_vec (bsp_vm a rows (nat_of_int k))
+      | M (_, _, rows), V b -> show_vec (bsp_mv rows b)
+      | M (_, _, ra), M (_, k, rb) -> show_mat (bsp_mm ra rb (nat_of_int k)))
+  | ["xbsf_wt"; a] -> (match parse_opnd a with
+      | V a -> string_of_int (int_of_nat (bsf_wt a))
+      | M (_, _, rows) -> string_of_int (int_of_nat (bsf_wt_rows rows)))
+  | ["xof_bsf"; a] -> (match parse_opnd a with
+      | V a -> "s:" ^ string_of_pstr (of_bsf a)
+      | M (_, _, rows) -> show_strs (of_bsf_list rows))
+  | ["xto_bsf"; s] -> (match parse_strs s with
+      | `S p -> show_vec (to_bsf p)
+      | `L l -> show_mat (to_bsf_list l))
+  | ["xpauli_wt"; s] -> (match parse_strs s with
+      | `S p -> string_of_int (int_of_nat (pauli_wt p))
+      | `L l -> string_of_int (int_of_nat (pauli_wt_list l)))
+  | ["xipauli"; n; lo; hi] ->
+      show_strs (ipauli (nat_of_int (int_of_string n)) (nat_of_int (int_of_string lo)) (nat_of_int (int_of_string hi)))
+  | ["xibsf"; n; lo; hi] ->
+      show_mat (ibsf (nat_of_int (int_of_string n)) (nat_of_int (int_of_string lo)) (nat_of_int (int_of_string hi)))
   | _ -> "ERR BadRequest"
 let () = main dispatch
